@@ -120,3 +120,98 @@ Proof.
                   true 0 false true ex_final [] H (nodollar_nil ex_world) I (Inv_nil ex_world) R)).
 Qed.
 Print Assumptions c01_hypotheses_inhabited.
+
+(* ================================================================================================
+   The composed model (Model/SetupFull.v): Model/Setup.v with the version resolver of C03
+   (Model/Resolve.v) in place of the stream of decisions.  [setup_full] carries Eups.alreadySetupProducts
+   and the VRO, and calls resolve_request for every forward call on the database view [db_of cfg fw]
+   (one stack; the declared (name, version) pairs of the world; the chain files fw_tags); [fw_lines] holds
+   what Action.processArgs makes of every dependency line.  The correspondence check runs this model
+   WITHOUT the real resolver's decisions and compares environments, aliases and decisions.
+   ================================================================================================ *)
+From Eupsv Require Import Model.Resolve Model.ResolveSpec Model.SetupFull Proofs.SetupFull Proofs.SetupFullExample
+     Generated.Config.
+
+(* every run of the composed model IS a run of Model/Setup.v: on the decisions it took (trace_of), followed by
+   anything.  Hence every theorem about Model/Setup.v for every resolver above and in Props/C02.v, C04.v holds
+   of the composed model; the corollaries below state the ones of this file. *)
+Theorem setup_full_is_setup vcmp vmatch fw cfg rc flavors fuel st al vro name li fwd depth just rest :
+  setup (fw_products fw) cfg fuel st
+        (trace_of (setup_full vcmp vmatch fw cfg rc flavors fuel st al vro name li fwd depth just) ++ rest)
+        name fwd depth just =
+  erase rest (setup_full vcmp vmatch fw cfg rc flavors fuel st al vro name li fwd depth just).
+Proof. apply setup_full_agrees. Qed.
+Print Assumptions setup_full_is_setup.
+
+Corollary setup_full_preserves_inv vcmp vmatch fw cfg rc flavors dl rank fuel st al vro name li fwd depth just ok st' al' tr :
+  WF2 (fw_products fw) dl rank -> nodollar_paths (fw_products fw) (s_env st) -> depth_ok cfg depth ->
+  Inv (fw_products fw) (s_env st) ->
+  setup_full vcmp vmatch fw cfg rc flavors fuel st al vro name li fwd depth just = FDone ok st' al' tr ->
+  Inv (fw_products fw) (s_env st') /\ nodollar_paths (fw_products fw) (s_env st').
+Proof. apply setup_full_inv_lemma. Qed.
+Print Assumptions setup_full_preserves_inv.
+
+(* the same for a whole command (selectVRO, then Eups.setup from a fresh Eups) *)
+Corollary request_full_preserves_inv vcmp vmatch fw cfg rc flavors dl rank fuel st name version fwd just st' tr :
+  WF2 (fw_products fw) dl rank -> nodollar_paths (fw_products fw) (s_env st) -> Inv (fw_products fw) (s_env st) ->
+  request_full vcmp vmatch fw cfg rc flavors fuel st name version fwd just = Ok (Some st', tr) ->
+  Inv (fw_products fw) (s_env st').
+Proof.
+  intros H Hnd HI E. unfold request_full in E. destruct (select_vro rc (request_opts cfg version)) as [vro|]; [|discriminate].
+  destruct (setup_full vcmp vmatch fw cfg rc flavors fuel st [] vro name _ fwd 0 just) as [[|] st1 al1 tr1|st1 al1 tr1|tr1|tr1] eqn:R;
+    try discriminate.
+  injection E as <- _.
+  assert (Hd : depth_ok cfg 0) by (unfold depth_ok; destruct (c_max_depth cfg); lia).
+  exact (proj1 (setup_full_inv_lemma vcmp vmatch fw cfg rc flavors dl rank fuel st [] vro name _ fwd 0 just true st1 al1 tr1
+                  H Hnd Hd HI R)).
+Qed.
+Print Assumptions request_full_preserves_inv.
+
+(* "if a version was named explicitly, that is the version set up": a top-level request that names the
+   version v (not a relational expression) and succeeds ends with v recorded for the product - whatever the VRO,
+   the tags and the dictionary.  C03's explicit_toplevel_version_honoured composed with decided_version_is_set_up. *)
+Theorem explicit_version_is_set_up vcmp vmatch fw cfg rc flavors dl rank fuel st al vro name v x just st' al' tr :
+  WF2 (fw_products fw) dl rank -> nodollar_paths (fw_products fw) (s_env st) -> Inv (fw_products fw) (s_env st) ->
+  v <> [] -> is_expr v = false ->
+  setup_full vcmp vmatch fw cfg rc flavors fuel st al vro name {| li_version := Some v; li_expr := x |} true 0 just
+    = FDone true st' al' tr ->
+  exists p, find_pv (fw_products fw) name v = Some p /\ p_version p = v /\
+            find_setup_product (fw_products fw) (s_env st') name = Some p.
+Proof. apply explicit_version_lemma. Qed.
+Print Assumptions explicit_version_is_set_up.
+
+Corollary explicit_version_is_set_up_request vcmp vmatch fw cfg rc flavors dl rank fuel st name v just st' tr :
+  WF2 (fw_products fw) dl rank -> nodollar_paths (fw_products fw) (s_env st) -> Inv (fw_products fw) (s_env st) ->
+  v <> [] -> is_expr v = false ->
+  request_full vcmp vmatch fw cfg rc flavors fuel st name (Some v) true just = Ok (Some st', tr) ->
+  exists p, find_pv (fw_products fw) name v = Some p /\ p_version p = v /\
+            find_setup_product (fw_products fw) (s_env st') name = Some p.
+Proof.
+  intros H Hnd HI Hne Hx E. unfold request_full in E.
+  destruct (select_vro rc (request_opts cfg (Some v))) as [vro|]; [|discriminate].
+  destruct (setup_full vcmp vmatch fw cfg rc flavors fuel st [] vro name _ true 0 just) as [[|] st1 al1 tr1|st1 al1 tr1|tr1|tr1] eqn:R;
+    try discriminate.
+  injection E as <- _.
+  exact (explicit_version_lemma vcmp vmatch fw cfg rc flavors dl rank fuel st [] vro name v None just st1 al1 tr1 H Hnd HI Hne Hx R).
+Qed.
+Print Assumptions explicit_version_is_set_up_request.
+
+(* ---- the composed model on the example world: the hypotheses are inhabited ----
+   ex_fw (Proofs/SetupFullExample.v) is ex_world with the request information of its table lines and its chain
+   files.  With the shipped configuration (Generated/Config.v), the dotted-numeric comparator and the flavors
+   Linux64, generic:  setup app  from the empty environment computes by itself the decisions ex_ds (base 1.0 below
+   liba, replaced by base 2.0 below libb, ghost not found) and ends in ex_final;  setup base 1.0  records base 1.0
+   although base 2.0 is current. *)
+Example c01_composed_inhabited :
+  WF2 (fw_products ex_fw) (dl_of ex_world) (rank_of ex_order) /\
+  request_full_simple ex_fw ex_cfg default_config ex_flavors 20 ex_st0 (lit "app") None true false
+    = Ok (Some ex_final, ex_ds) /\
+  (exists st' tr,
+     request_full_simple ex_fw ex_cfg default_config ex_flavors 20 ex_st0 (lit "base") (Some (lit "1.0")) true false
+       = Ok (Some st', tr) /\
+     find_setup_product ex_world (s_env st') (lit "base") = find_pv ex_world (lit "base") (lit "1.0")).
+Proof.
+  split; [apply wf2_check_sound; vm_compute; reflexivity|]. split; [vm_compute; reflexivity|].
+  eexists. eexists. split; vm_compute; reflexivity.
+Qed.
+Print Assumptions c01_composed_inhabited.
